@@ -461,15 +461,21 @@ Lemma encodings_site g s : g <> NPU -> site_crxy g GeomMap (geom_entry g s) = si
 Proof.
   intros Hg. destruct s as [[[sh c] r] f].
   destruct g; try congruence; unfold site_crxy, geom_entry, s_a, s_b, xy2c, xy2r, rc2x, rc2y; cbn [fst snd DX DY X0 Y0].
-  - replace (70 - (27 + 32 * c - 16 * (r mod 2)) - 11) with ((- c * 2 + 2 + r mod 2) * 16) by ring.
-    replace (20 * r + 20 - 20) with (r * 20) by ring.
-    rewrite !exact_div_mul by lia. repeat f_equal; ring.
-  - replace (27 + 32 * c - 27) with (c * 32) by ring.
-    replace (15 * r + 20 - 20) with (r * 15) by ring.
-    rewrite !exact_div_mul by lia. repeat f_equal; ring.
-  - replace (27 + 32 * c - 27) with (c * 32) by ring.
-    replace (15 * r + 20 - 20) with (r * 15) by ring.
-    rewrite !exact_div_mul by lia. repeat f_equal; ring.
+  - replace (70 - (27 + 32 * c - 16 * (r mod 2))) with ((- c * 2 + 2 + r mod 2) * 16 + 11) by ring.
+    replace ((- c * 2 + 2 + r mod 2) * 16 + 11 - 11) with ((- c * 2 + 2 + r mod 2) * 16) by ring.
+    replace (20 * r + 20) with (r * 20 + 20) by ring.
+    replace (r * 20 + 20 - 20) with (r * 20) by ring.
+    rewrite !exact_div_mul by lia. reflexivity.
+  - replace (27 + 32 * c) with (c * 32 + 27) by ring.
+    replace (c * 32 + 27 - 27) with (c * 32) by ring.
+    replace (15 * r + 20) with (r * 15 + 20) by ring.
+    replace (r * 15 + 20 - 20) with (r * 15) by ring.
+    rewrite !exact_div_mul by lia. reflexivity.
+  - replace (27 + 32 * c) with (c * 32 + 27) by ring.
+    replace (c * 32 + 27 - 27) with (c * 32) by ring.
+    replace (15 * r + 20) with (r * 15 + 20) by ring.
+    replace (r * 15 + 20 - 20) with (r * 15) by ring.
+    rewrite !exact_div_mul by lia. reflexivity.
 Qed.
 
 Lemma geom_entry_shank g s : s_shank (geom_entry g s) = s_shank s.
